@@ -16,7 +16,7 @@ Open Scope Z_scope.
 (* ---------------------------------------------------------------------------------------------------------- *)
 (* strings                                                                                                     *)
 
-Definition str := list Z.
+Notation str := (list Z) (only parsing).
 Definition dot : Z := 46.
 
 (* Python str.split(sep) for a one-character separator: never returns the empty list *)
@@ -156,7 +156,7 @@ Definition check_name (s : str) : bool :=
 (* ---------------------------------------------------------------------------------------------------------- *)
 (* paths                                                                                                       *)
 
-Definition comp := str.
+Notation comp := (list Z) (only parsing).
 Inductive path := P (absolute : bool) (cs : list comp).
 
 Definition is_abs (p : path) : bool := match p with P a _ => a end.
